@@ -621,62 +621,85 @@ impl Stdfs {
         } else if dst_root.starts_with(src_root.path()) {
             return Err(format!("can't copy {} into itself {}", src_root.path().display(), dst_root.display()).as_str().into());
         }
-        // Snapshot the source before creating anything so that the copy never traverses its own output
-        let entries: Vec<RvResult<VfsEntry>> = Stdfs::entries(src_root.path())?.follow(cp.follow).into_iter().collect();
-        for entry in entries {
-            let src = entry?;
+        // Work list of (source, image) pairs. The traversal itself never follows links: when following
+        // a link is replaced by what it points to and a directory target becomes a new work item whose
+        // image is the link's own place in the destination.
+        let image = if copy_into { dst_root.mash(src_root.path().base()?) } else { dst_root.clone() };
+        let mut work = vec![(src_root.path_buf(), image, vec![src_root.path_buf()])];
+        while let Some((from, to, chain)) = work.pop() {
+            // Snapshot the source before creating anything so that the copy never traverses its own output
+            let entries: Vec<RvResult<VfsEntry>> = Stdfs::entries(&from)?.into_iter().collect();
+            for entry in entries {
+                let src = entry?;
 
-            // Set destination path based on source path
-            let dst_path = if copy_into {
-                dst_root.mash(src.path().trim_prefix(src_root.path().dir()?))
-            } else {
-                dst_root.mash(src.path().trim_prefix(src_root.path()))
-            };
+                // Set destination path based on source path
+                let dst_path = to.mash(src.path().trim_prefix(&from));
 
-            // Nothing to do when an entry would be copied onto itself, copying would truncate it
-            if src.path() == dst_path {
-                continue;
-            }
-
-            // `follow`, i.e. pass through to the target for links
-            let src = if cp.follow && src.is_symlink() { StdfsEntry::from(src.path())?.upcast() } else { src };
-
-            // Recreate links if were not following them
-            if !cp.follow && src.is_symlink() {
-                // Copying into a directory might require creating it first
-                if !Stdfs::exists(&dst_path.dir()?) {
-                    let mode = match dir_mode {
-                        Some(x) => x,
-                        None => StdfsEntry::from(src.path().dir()?)?.mode(),
-                    };
-                    Stdfs::mkdir_m(&dst_path.dir()?, mode)?;
+                // Nothing to do when an entry would be copied onto itself, copying would truncate it
+                if src.path() == dst_path {
+                    continue;
                 }
-                Stdfs::symlink(dst_path, src.alt())?;
-            } else if src.is_dir() {
-                Stdfs::mkdir_m(&dst_path, dir_mode.unwrap_or(src.mode()))?;
-            } else {
-                // Copying into a directory might require creating it first
-                if !Stdfs::exists(&dst_path.dir()?) {
-                    Stdfs::mkdir_m(
-                        &dst_path.dir()?,
-                        match dir_mode {
+
+                // Recreate links if were not following them
+                if !cp.follow && src.is_symlink() {
+                    // Copying into a directory might require creating it first
+                    if !Stdfs::exists(&dst_path.dir()?) {
+                        let mode = match dir_mode {
                             Some(x) => x,
                             None => StdfsEntry::from(src.path().dir()?)?.mode(),
-                        },
-                    )?;
-                }
-
-                // Copy over the file, an existing link at the destination is not a file (link exclusion)
-                if let Ok(meta) = fs::symlink_metadata(&dst_path) {
-                    if !meta.is_file() {
-                        return Err(PathError::is_not_file(&dst_path).into());
+                        };
+                        Stdfs::mkdir_m(&dst_path.dir()?, mode)?;
                     }
+                    Stdfs::symlink(dst_path, src.alt())?;
+                    continue;
                 }
-                fs::copy(src.path(), &dst_path)?;
 
-                // Optionally set new mode
-                if let Some(mode) = file_mode {
-                    fs::set_permissions(&dst_path, fs::Permissions::from_mode(mode))?;
+                // `follow`, i.e. pass through to the final target for links
+                let via_link = src.is_symlink();
+                let mut src = StdfsEntry::from(src.path())?;
+                let mut hops = 0;
+                while src.is_symlink() {
+                    hops += 1;
+                    if hops > 16 {
+                        return Err(PathError::link_looping(src.path()).into());
+                    }
+                    src = StdfsEntry::from(src.alt())?;
+                }
+
+                if src.is_dir() && via_link {
+                    // Copy the directory the link points to in place of the link
+                    if chain.iter().any(|x| x == src.path()) || from.starts_with(src.path()) || dst_path.starts_with(src.path()) {
+                        return Err(PathError::link_looping(src.path()).into());
+                    }
+                    let mut chain = chain.clone();
+                    chain.push(src.path_buf());
+                    work.push((src.path_buf(), dst_path, chain));
+                } else if src.is_dir() {
+                    Stdfs::mkdir_m(&dst_path, dir_mode.unwrap_or(src.mode()))?;
+                } else {
+                    // Copying into a directory might require creating it first
+                    if !Stdfs::exists(&dst_path.dir()?) {
+                        Stdfs::mkdir_m(
+                            &dst_path.dir()?,
+                            match dir_mode {
+                                Some(x) => x,
+                                None => StdfsEntry::from(src.path().dir()?)?.mode(),
+                            },
+                        )?;
+                    }
+
+                    // Copy over the file, an existing link at the destination is not a file (link exclusion)
+                    if let Ok(meta) = fs::symlink_metadata(&dst_path) {
+                        if !meta.is_file() {
+                            return Err(PathError::is_not_file(&dst_path).into());
+                        }
+                    }
+                    fs::copy(src.path(), &dst_path)?;
+
+                    // Optionally set new mode
+                    if let Some(mode) = file_mode {
+                        fs::set_permissions(&dst_path, fs::Permissions::from_mode(mode))?;
+                    }
                 }
             }
         }
